@@ -38,7 +38,7 @@ BOUNDS = {
     "quick": "trees <= 3 leaves (styles), <= 2 leaves (layout, aliases, corruptions); 8 SUPERIORS patterns x 3 splits; shipped strict/relaxed/loose",
     "thorough": "trees <= 3 leaves for styles, layout(1 deviation), aliases and corruptions; two simultaneous layout deviations for <= 2 leaves",
 }
-REQUIRED_BUCKETS = {t: ["styles:parsed", "layout:parsed", "alias:changes-structure", "alias:parsed", "files:parsed", "shipped:rules",
+REQUIRED_BUCKETS = {t: ["styles:parsed", "layout:parsed", "alias:changes-structure", "alias:parsed", "files:parsed", "files:split-with-multipliers", "shipped:rules",
                         "corrupt:both-reject", "corrupt:both-accept", "regen:checked"] for t in ("quick", "thorough")}
 PROFILES = {"a", "b", "c", "d"}
 CATEGORIES = {"cat", "other"}
@@ -360,14 +360,19 @@ def run_shard(shard):
     elif kind == "files":
         for pi, pattern in enumerate(file_patterns()):
             for split in ([3], [1, 2], [2, 1], [1, 1, 1]):
-                res.evals += 1
-                res.nontrivial += 1
-                case = {"kind": "files", "pattern": pi, "split": split}
-                fails = check_files(pattern, split, res)
-                for clause, detail in fails:
-                    res.fail(case, clause, detail)
-                res.outcomes[("files", not fails)] += 1
-                res.sample(case, 1)
+                # rules read from earlier files are handed to the next parser as existing rules: their distances must
+                # come out scaled exactly once whatever the split
+                for mult in FILE_MULTIPLIERS:
+                    res.evals += 1
+                    res.nontrivial += 1
+                    case = {"kind": "files", "pattern": pi, "split": split}
+                    if mult != (1.0, 1.0):
+                        case["mult"] = list(mult)
+                    fails = check_files(pattern, split, res, mult)
+                    for clause, detail in fails:
+                        res.fail(case, clause, detail)
+                    res.outcomes[("files", not fails)] += 1
+                    res.sample(case, 1)
     elif kind == "shipped":
         for fails, case in check_shipped(res):
             for clause, detail in fails:
@@ -443,17 +448,22 @@ def _parse_seq(texts):
     return rules
 
 
-def check_files(pattern, split, res=None):
+FILE_MULTIPLIERS = [(1.0, 1.0), (0.5, 1.5), (1.5, 0.5), (2.0, 2.0)]
+
+
+def check_files(pattern, split, res=None, mult=(1.0, 1.0)):
     texts = []
     pos = 0
     for size in split:
         texts.append(sum(pattern[pos:pos + size], []))
         pos += size
-    fails, outcome = judge_texts(texts)
+    fails, outcome = judge_texts(texts, mult)
     if outcome != "both-accept":
         return fails or [("reference-rejects-generated-file", outcome)]
     if not fails and res is not None:
         res.buckets["files:parsed"] += 1
+        if len(split) > 1 and mult != (1.0, 1.0):
+            res.buckets["files:split-with-multipliers"] += 1
     return fails
 
 
@@ -523,7 +533,7 @@ def replay(case):
         cond = G.tokenise(U.render(case["tree"]))
         return check_alias(cond, case["i"], case["j"], case["where"])[0]
     if kind == "files":
-        return check_files(list(file_patterns())[case["pattern"]], case["split"])
+        return check_files(list(file_patterns())[case["pattern"]], case["split"], None, tuple(case.get("mult", (1.0, 1.0))))
     if kind == "shipped":
         res = Result()
         return [f for fails, c in check_shipped(res) if c["rule"] == case["rule"] for f in fails]
